@@ -243,6 +243,11 @@ func (ga *GroupAggregator) Add(data any) error {
 			if err != nil {
 				continue
 			}
+			// A NULL expression result is skipped like a NULL column value
+			// (FIRST_VALUE/LAST_VALUE still record it).
+			if result == nil && !ga.shouldAllowNullValues(aggField.AggregateType) {
+				continue
+			}
 
 			if groupAgg, exists := ga.groups[key][outputAlias]; exists {
 				groupAgg.Add(result)
